@@ -34,6 +34,8 @@ static const long double PI_L = 3.14159265358979323846264338327950288L;
 
 inline bool model_isnan(int64_t v) { return v == RAW_NAN || v == RAW_NNAN; }
 inline bool model_finite(int64_t v) { return v >= RAW_LOWEST && v <= RAW_MAX; }
+// |x| that is safe for INT64_MIN (saturates): judges receive arbitrary 64-bit arguments from --replay and from the fuzz arm
+inline int64_t sabs(int64_t x) { return x == INT64_MIN ? INT64_MAX : (x < 0 ? -x : x); }
 
 struct Cfg
   {
@@ -192,6 +194,12 @@ inline i128 int_value(const IntType & t, int64_t x)
   return (i128)u;
   }
 int64_t random_of_type(Rng & r, const IntType & t); // boundary-heavy value of the type, as wrapper argument
+
+// judges shared between C02/C03 and C16 (literal integer operand at the call site), defined in props_arith.cc
+void judge_mul_const(Ctx & c, int64_t a, int64_t which, int64_t);
+void judge_div_const(Ctx & c, int64_t a, int64_t which, int64_t);
+size_t const_scalar_count();
+i128 const_scalar_value(size_t which);
 
 // floating helpers
 inline double bits2d(int64_t b) { double d; memcpy(&d, &b, 8); return d; }
